@@ -1002,6 +1002,14 @@ def _index_forms(model, rep):
                     t.elts if isinstance(t, ast.Tuple) else [t])})
         ints = [k for k in kinds if "int" in k or "np.integer" in k
                 or "numbers.Integral" in k or "Integral" in k]
+        # other spellings of 'a single index of any integer type'
+        generic = any(isinstance(n, ast.Call) and src(n.func) in (
+            "np.isscalar", "np.ndim", "np.issubdtype", "np.shape",
+            "operator.index") and any(isinstance(y, ast.Name) and y.id == par
+                                      for y in ast.walk(n))
+            for n in walk_no_nested(fn.node))
+        if generic:
+            ints = ints + [{"np.integer"}]
         cons = f"Mesh.{name}:single-index"
         if not ints:
             rep.fail(R4, fn.path, f"Mesh.{name}", cons,
@@ -1291,6 +1299,10 @@ MUTANTS = [
       "dtype=np.int32)"), "C07-R4"),
 ]
 TWINS = [
+    ("facet selector recognises a single index with np.ndim",
+     (_M, "        if isinstance(facets, (int, np.integer)):",
+      "        if not isinstance(facets, (str, bool)) and not callable("
+      "facets) and facets is not None and np.ndim(facets) == 0:")),
     ("facet midpoint weights compared the other way round",
      (_M, "            w[i] = (f[i] != f[:i]).all(axis=0)",
       "            w[i] = (f[:i] != f[i]).all(axis=0)")),
